@@ -13,6 +13,8 @@ import DeapModel.Lemmas.C15Measure
 import DeapModel.Lemmas.C15Sweep2d
 import DeapModel.Lemmas.C15Sweep3d
 import DeapModel.Lemmas.C15Gen7
+import DeapModel.Lemmas.C15HvCTop
+import DeapModel.Lemmas.C15HvCSearch
 
 namespace C15
 open Hypervolume MeasureTheory
@@ -459,5 +461,217 @@ example : 1 ≤ ([4, 4, 4, 4, 4] : List ℚ).length ∧
   intro p hp
   simp only [List.mem_cons, List.not_mem_nil, or_false] at hp
   rcases hp with rfl | rfl | rfl <;> rfl
+
+/-! ### The COMPILED routine: the transcription `Core/HvC.lean` of `deap/tools/_hypervolume/_hv.c`
+
+`HvC.fpliHv data ref` runs `fpli_hv` (l.1456-1490) as the C source does: `setup_cdllist` (one circular doubly linked
+list per coordinate, node ids for pointers), `filter` (unlinks the points that do not strictly dominate the
+reference), the cases `n == 0` / `n == 1`, and `hv_recursive` (VARIANT 4: general case with `bound` / `vol` / `area`
+caches, `ignore` marks, `delete(_dom)` / `reinsert(_dom)`; base cases `dim == 2` with the AVL tree, `dim == 1`,
+`dim == 0`).  The AVL library is abstracted to the ordered sequence it represents (`HvC.St.tree`; see the header of
+`Core/HvC.lean`) — that is the one thing about `_hv.c` that is not modelled.  The correspondence run diffs
+`HvC.fpliHv` against the extension rebuilt from the working tree on every hypervolume case.
+
+Proved below: in EVERY dimension what `setup_cdllist` + `filter` leave (`hvC_setup_filter`) and the answer when at
+most one point survives (`hvC_le_one_point`); for one, two and three objectives the full statement
+`hvC_eq_hvCells_partial` (all three base cases of `hv_recursive`: `dim == 0`, `dim == 1`, and `dim == 2` — the sweep
+along the third coordinate with the 2-D staircase in the tree — entered with `bound[2] = -DBL_MAX`), hence totality
+there (`hvC_total_partial`).  NOT proved: four and more objectives (`hvC_eq_hvCells_Statement`,
+`hvC_total_Statement`) — the general case of `hv_recursive` and the 3-D base case RE-ENTERED with a finite
+`bound[2]` (cached `vol[2]` / `area[2]` / `domr`); there the tie is the correspondence run only. -/
+
+/-- **`setup_cdllist` + `filter`, every dimension**: for every coordinate `j` the linked list of dimension `j` is a
+well-formed circular doubly linked list whose nodes are, in ascending order of coordinate `j`, exactly the input
+points that lie strictly below the reference point in every coordinate; the count handed to `hv_recursive` is their
+number; nothing but `next` / `prev` has been written. -/
+theorem hvC_setup_filter (data : List (List ℚ)) (ref : List ℚ) :
+    let C : HvC.Cargo := [] :: data
+    let r := HvC.filter C ref ref.length data.length (HvC.setupCdllist C ref.length data.length)
+    r.1 = (data.filter (HvC.strictlyBelow ref)).length ∧
+    HvC.SameData (HvC.initSt ref.length data.length) r.2 ∧
+    ∀ j < ref.length, ∃ G : List ℕ, HvC.DLc data.length r.2 j G ∧ G.length = r.1 ∧
+      G.Pairwise (fun a b => HvC.cg C a j ≤ HvC.cg C b j) ∧
+      (∀ a, a ∈ G ↔ (1 ≤ a ∧ a ≤ data.length ∧ HvC.strictlyBelow ref (HvC.ptOf C a) = true)) := by
+  intro C r
+  have hR := HvC.ready data ref
+  refine ⟨by rw [hR.count, HvC.count_good], hR.same, ?_⟩
+  intro j hj
+  obtain ⟨L, hO, hD⟩ := hR.lists j hj
+  refine ⟨L.filter (HvC.goodUpTo C ref ref.length), hD, ?_, hO.sorted.filter _, ?_⟩
+  · rw [hR.count]; exact HvC.length_filter_perm hO.perm _
+  · intro a
+    rw [List.mem_filter, hO.perm.mem_iff, HvSweep.mem_ids]
+    constructor
+    · rintro ⟨⟨h1, h2⟩, h3⟩; exact ⟨h1, h2, h3⟩
+    · rintro ⟨h1, h2, h3⟩; exact ⟨⟨h1, h2⟩, h3⟩
+
+/-- **every dimension**: when at most one input point lies strictly below the reference point, `fpli_hv` returns
+the specification (0, or the volume of the one box; points on or beyond the reference boundary contribute nothing). -/
+theorem hvC_le_one_point (data : List (List ℚ)) (ref : List ℚ) (hd : 1 ≤ ref.length)
+    (h : (data.filter (HvC.strictlyBelow ref)).length ≤ 1) : HvC.fpliHv data ref = some (hvCells ref data) :=
+  HvC.fpliHv_le_one data ref hd h
+
+example : 1 ≤ ([3, 3, 3, 3, 3] : List ℚ).length ∧
+    (([[0, 1, 2, 1, 0], [1, 3, 1, 0, 2], [3, 0, 0, 0, 0]] : List (List ℚ)).filter (HvC.strictlyBelow [3, 3, 3, 3, 3])).length ≤ 1 := by
+  decide
+
+/-- **`hvC_base_dim1`** (`hv_recursive`, `dim == 0`): one objective. -/
+theorem hvC_base_dim1 (data : List (List ℚ)) (r : ℚ) : HvC.fpliHv data [r] = some (hvCells [r] data) :=
+  HvC.fpliHv_dim1 data r
+
+/-- **`hvC_base_dim2`** (`hv_recursive`, `dim == 1`, the staircase loop l.995-1011): two objectives. -/
+theorem hvC_base_dim2 (data : List (List ℚ)) (r₁ r₂ : ℚ) (hlen : ∀ p ∈ data, p.length = 2) :
+    HvC.fpliHv data [r₁, r₂] = some (hvCells [r₁, r₂] data) :=
+  HvC.fpliHv_dim2 data r₁ r₂ hlen
+
+example : ∀ p ∈ ([[1, 2], [2, 1], [3, 3]] : List (List ℚ)), p.length = 2 := by
+  intro p hp
+  simp only [List.mem_cons, List.not_mem_nil, or_false] at hp
+  rcases hp with rfl | rfl | rfl <;> rfl
+
+/-- **the 3-D base case over the abstract ordered set** (`hv_recursive`, `dim == 2`, l.825-992, entered with
+`bound[2] = -DBL_MAX` and all `ignore` flags 0): on ANY state whose list of dimension 2 is a well-formed list of nodes
+sorted by the third coordinate and strictly below the reference, it returns the hypervolume of those nodes — the
+staircase of the first two coordinates kept in the tree, its area updated by l.955-982, times the slab thickness. -/
+theorem hvC_base_dim3_fresh (C : HvC.Cargo) (R : List ℚ) (d n fuel : ℕ) (S : HvC.St) (a₁ : ℕ) (rest : List ℕ)
+    (hD : HvC.DLc n S 2 (a₁ :: rest))
+    (hs : (a₁ :: rest).Pairwise (fun a b => HvC.cg C a 2 ≤ HvC.cg C b 2))
+    (hfacts : ∀ a ∈ a₁ :: rest, HvC.cg C a 0 < HvC.rf R 0 ∧ HvC.cg C a 1 < HvC.rf R 1 ∧ HvC.cg C a 2 < HvC.rf R 2 ∧
+      (HvC.ptOf C a).length = 3)
+    (hbound : S.bound.getD 2 none = none) (hign : ∀ a, HvC.ign S a = 0)
+    (hd : 2 < d) (hvol : HvSweep.Shaped (n + 1) d S.vol) (harea : HvSweep.Shaped (n + 1) d S.area)
+    (hfuel : n < fuel) :
+    ∃ S', HvC.dim3 C R fuel S
+      = some (hvCells [HvC.rf R 0, HvC.rf R 1, HvC.rf R 2] ((a₁ :: rest).map (HvC.ptOf C)), S') :=
+  HvC.dim3_fresh C R d n fuel S a₁ rest hD hs hfacts hbound hign hd hvol harea hfuel
+
+/-- the hypotheses of `hvC_base_dim3_fresh` are what `setup_cdllist` + `filter` establish (here: three points) -/
+example : ∃ (S : HvC.St) (a₁ : ℕ) (rest : List ℕ),
+    let C : HvC.Cargo := [[], [1, 2, 0], [2, 0, 1], [0, 1, 2]]
+    HvC.DLc 3 S 2 (a₁ :: rest) ∧ (a₁ :: rest).Pairwise (fun a b => HvC.cg C a 2 ≤ HvC.cg C b 2) ∧
+    S.bound.getD 2 none = none ∧ (∀ a, HvC.ign S a = 0) := by
+  have h := hvC_setup_filter [[1, 2, 0], [2, 0, 1], [0, 1, 2]] [3, 3, 3]
+  obtain ⟨h1, ⟨e1, _, _, e4, _⟩, h3⟩ := h
+  obtain ⟨G, hD, hlen, hs, _⟩ := h3 2 (by decide)
+  have hG : G.length = 3 := by rw [hlen, h1]; decide
+  match G, hG with
+  | a :: rest, _ =>
+    refine ⟨_, a, rest, hD, hs, ?_, ?_⟩
+    · rw [e4]; exact HvC.getD_replicate_none _ _
+    · intro x
+      show (HvC.St.ignore _).getD x 0 = 0
+      rw [e1]; exact HvC.getD_replicate_int _ _
+
+/-- **`hvC_base_dim3`**: three objectives (the AVL-tree sweep as the base case of `fpli_hv`). -/
+theorem hvC_base_dim3 (data : List (List ℚ)) (r₀ r₁ r₂ : ℚ) (hlen : ∀ p ∈ data, p.length = 3) :
+    HvC.fpliHv data [r₀, r₁, r₂] = some (hvCells [r₀, r₁, r₂] data) :=
+  HvC.fpliHv_dim3 data r₀ r₁ r₂ hlen
+
+example : ∀ p ∈ ([[1, 2, 0], [2, 0, 1], [0, 1, 3]] : List (List ℚ)), p.length = 3 := by
+  intro p hp
+  simp only [List.mem_cons, List.not_mem_nil, or_false] at hp
+  rcases hp with rfl | rfl | rfl <;> rfl
+
+/-- The full correctness statement of the transcribed C routine: for every dimension `d ≥ 1` and every list of
+points of that dimension at or below the reference (weakly dominating it), it returns the specification.
+NOT proved for `d ≥ 4` (general case of `hv_recursive`, re-entered 3-D base case): correspondence only. -/
+def hvC_eq_hvCells_Statement : Prop :=
+  ∀ (ref : List ℚ) (data : List (List ℚ)), 1 ≤ ref.length → (∀ p ∈ data, p.length = ref.length) →
+    (∀ p ∈ data, ∀ j < ref.length, p.getD j 0 ≤ ref.getD j 0) →
+    HvC.fpliHv data ref = some (hvCells ref data)
+
+/-- the proved part: one, two and three objectives (extra hypothesis `ref.length ≤ 3`; the hypothesis that the
+points weakly dominate the reference is not even needed: `filter` drops the others, whose boxes are empty) -/
+theorem hvC_eq_hvCells_partial (ref : List ℚ) (data : List (List ℚ)) (hd : 1 ≤ ref.length) (hd3 : ref.length ≤ 3)
+    (hlen : ∀ p ∈ data, p.length = ref.length) : HvC.fpliHv data ref = some (hvCells ref data) := by
+  match ref, hd, hd3 with
+  | [r], _, _ => exact hvC_base_dim1 data r
+  | [r₁, r₂], _, _ => exact hvC_base_dim2 data r₁ r₂ hlen
+  | [r₀, r₁, r₂], _, _ => exact hvC_base_dim3 data r₀ r₁ r₂ hlen
+
+example : 1 ≤ ([3, 3, 3] : List ℚ).length ∧ ([3, 3, 3] : List ℚ).length ≤ 3 ∧
+    (∀ p ∈ ([[1, 2, 0], [2, 0, 1], [3, 1, 1]] : List (List ℚ)), p.length = ([3, 3, 3] : List ℚ).length) := by
+  refine ⟨by simp, by simp, ?_⟩
+  intro p hp
+  simp only [List.mem_cons, List.not_mem_nil, or_false] at hp
+  rcases hp with rfl | rfl | rfl <;> rfl
+
+/-- … hence, for up to three objectives, the transcribed C routine returns the Lebesgue measure of the union of
+the boxes. -/
+theorem hvC_eq_volume_partial (ref : List ℚ) (data : List (List ℚ)) (hd : 1 ≤ ref.length) (hd3 : ref.length ≤ 3)
+    (hlen : ∀ p ∈ data, p.length = ref.length) :
+    ∃ v : ℚ, HvC.fpliHv data ref = some v ∧
+      volume (⋃ p ∈ data, Set.pi Set.univ
+        (fun j : Fin ref.length => Set.Ico (((p.getD j 0 : ℚ)) : ℝ) (((ref.getD j 0 : ℚ)) : ℝ))) = ENNReal.ofReal (v : ℝ) :=
+  ⟨hvCells ref data, hvC_eq_hvCells_partial ref data hd hd3 hlen, hvCells_eq_volume ref data⟩
+
+example : 1 ≤ ([4, 4] : List ℚ).length ∧ ([4, 4] : List ℚ).length ≤ 3 ∧
+    (∀ p ∈ ([[1, 2], [2, 1]] : List (List ℚ)), p.length = ([4, 4] : List ℚ).length) := by
+  refine ⟨by simp, by simp, ?_⟩
+  intro p hp
+  simp only [List.mem_cons, List.not_mem_nil, or_false] at hp
+  rcases hp with rfl | rfl <;> rfl
+
+/-- Total-ness of the transcription: with the fuel `n + 2` that `fpliHvSt` supplies, no pointer-following loop runs
+out of fuel.  NOT proved for `d ≥ 4` (the loop l.855-857 of the re-entered 3-D base case terminates for a semantic
+reason: some node has `domr ≥ bound[2]`). -/
+def hvC_total_Statement : Prop :=
+  ∀ (ref : List ℚ) (data : List (List ℚ)), 1 ≤ ref.length → (∀ p ∈ data, p.length = ref.length) →
+    ∃ v, HvC.fpliHv data ref = some v
+
+/-- the proved part: one, two and three objectives -/
+theorem hvC_total_partial (ref : List ℚ) (data : List (List ℚ)) (hd : 1 ≤ ref.length) (hd3 : ref.length ≤ 3)
+    (hlen : ∀ p ∈ data, p.length = ref.length) : ∃ v, HvC.fpliHv data ref = some v :=
+  ⟨_, hvC_eq_hvCells_partial ref data hd hd3 hlen⟩
+
+example : 1 ≤ ([2] : List ℚ).length ∧ ([2] : List ℚ).length ≤ 3 ∧
+    (∀ p ∈ ([[1], [1], [2], [0]] : List (List ℚ)), p.length = ([2] : List ℚ).length) := by
+  refine ⟨by simp, by simp, ?_⟩
+  intro p hp
+  simp only [List.mem_cons, List.not_mem_nil, or_false] at hp
+  rcases hp with rfl | rfl | rfl | rfl <;> rfl
+
+/-- **The abstraction of `avl_search_closest` is not observable.**  `HvC.Admissible C search` says what a descent
+through any search tree over the ordered sequence can answer: a neighbour of the insertion position together with
+its side (successor with `-1`, or predecessor with `+1`).  On a tree that is a staircase (what the 3-D sweep keeps),
+the body of the main loop l.899-989 returns the same value, area and state for EVERY admissible search as for the
+walk `HvC.searchClosest` used by the model — so nothing about the shape of the AVL tree enters the result. -/
+theorem hvC_search_choice (C : HvC.Cargo) (R : List ℚ) (search : HvC.St → ℚ × ℚ → ℕ × ℤ) (hadm : HvC.Admissible C search)
+    (tfuel pp : ℕ) (hyperv hypera : ℚ) (S : HvC.St)
+    (hne : S.tree ≠ []) (hnd : S.tree.Nodup) (h0 : 0 ∉ S.tree) (hpp : pp ∉ S.tree)
+    (hst : HvC.Stair (S.tree.map (HvC.item C))) :
+    HvC.sweepBodyWith search C R tfuel pp hyperv hypera S = HvC.sweepBody C R tfuel pp hyperv hypera S :=
+  HvC.sweepBodyWith_admissible C R search hadm tfuel pp hyperv hypera S hne hnd h0 hpp hst
+
+/-- the walk of the model is itself admissible (so the hypothesis of `hvC_search_choice` is satisfiable) -/
+theorem hvC_search_walk_admissible (C : HvC.Cargo) : HvC.Admissible C (HvC.searchClosest C) :=
+  HvC.admissible_searchClosest C
+
+example : ∃ (C : HvC.Cargo) (search : HvC.St → ℚ × ℚ → ℕ × ℤ) (S : HvC.St), HvC.Admissible C search ∧
+    S.tree ≠ [] ∧ S.tree.Nodup ∧ 0 ∉ S.tree ∧ 3 ∉ S.tree ∧ HvC.Stair (S.tree.map (HvC.item C)) := by
+  refine ⟨[[], [0, 2, 0], [1, 1, 1], [2, 0, 2]], HvC.searchClosest _, { HvC.initSt 3 3 with tree := [1, 2] },
+    hvC_search_walk_admissible _, by simp, by simp, by simp, by simp, ?_⟩
+  simp only [HvC.Stair, HvC.item, HvC.cg, HvSweep.tget, List.map_cons, List.map_nil]
+  norm_num [List.getD]
+
+/-- the update formula of l.955-982 in isolation: replacing the run `D` of staircase members dominated by the new
+point `p` changes the strip sum by `−Σ_D (y_prev − y_e)(x_next − x_e) + (y_prev(p) − y_p)(x_next − x_p)`. -/
+theorem hvC_staircase_update (r₀ r₁ : ℚ) (A D B : List (ℚ × ℚ)) (p : ℚ × ℚ) :
+    HvC.hArea r₀ r₁ (A ++ p :: B)
+      = HvC.hArea r₀ r₁ (A ++ D ++ B) - HvC.hArea (HvC.headX r₀ B) (HvC.lastY r₁ A) D
+        + (HvC.lastY r₁ A - p.2) * (HvC.headX r₀ B - p.1) :=
+  HvC.area_update r₀ r₁ A D B p
+
+/-- the strip sum kept in `hypera` is the area dominated by the staircase in the tree -/
+theorem hvC_staircase_area (r₀ r₁ : ℚ) (T : List (ℚ × ℚ)) (hs : HvC.Stair T) (hle : ∀ t ∈ T, t.1 ≤ r₀ ∧ t.2 ≤ r₁) :
+    HvC.hArea r₀ r₁ T = hvCells [r₀, r₁] (T.map toPt) :=
+  HvC.stair_area r₀ r₁ T hs hle
+
+example : HvC.Stair [((0 : ℚ), (2 : ℚ)), (1, 1), (2, 0)] ∧
+    ∀ t ∈ [((0 : ℚ), (2 : ℚ)), (1, 1), (2, 0)], t.1 ≤ (3 : ℚ) ∧ t.2 ≤ (3 : ℚ) := by
+  refine ⟨by simp [HvC.Stair], ?_⟩
+  intro t ht
+  simp only [List.mem_cons, List.not_mem_nil, or_false] at ht
+  rcases ht with rfl | rfl | rfl <;> norm_num
 
 end C15
